@@ -120,41 +120,28 @@ Proof.
 Qed.
 Print Assumptions page_and_alignment_ops_keep_view_ok.
 
-(* --- when does 'page down' raise?  keypress_page_down either handles the key (and leaves a ViewOK
-   state over the same widgets) or raises ListBoxError - nothing else - and it raises ONLY IF one
-   of the candidate widgets it gathered (pd_candidates: the widgets from the old focus downwards,
-   with their row offsets on the new page, minus a first entry that is off the edge) has rows and
-   lies completely above the top of the new page (row_offset + rows <= 0): change_focus is then
-   asked to place a widget entirely above the box ("Invalid offset_inset: N, only N rows in
-   target!").  Without such a candidate the key is always handled. --- *)
-Theorem page_down_raises_only_for_a_candidate_above_the_page :
-  forall s m,
-    ViewOK s -> WidgetsOK (items s) -> 1 <= m ->
-    (exists s' b, keypress_page_down s m = Ok (s', b) /\ ViewOK s' /\ items s' = items s) \/
-    (keypress_page_down s m = Err ListBoxError /\
-     exists v, visible (items s) (focus s) (off s) (inum s) (iden s) m true = Ok (Some v) /\
-               BadCand (pd_candidates s m v)).
-Proof. exact page_down_outcome. Qed.
-Print Assumptions page_down_raises_only_for_a_candidate_above_the_page.
+(* --- 'page down' never raises: for every ViewOK state (any pending request), widgets with heights
+   >= 0 and cursor rows inside them, maxrow >= 1, ListBox.keypress(size, 'page down') handles the key
+   or returns it, and leaves a ViewOK state over the same widgets.
+   Before the repair 1f3edac of _keypress_page_down this was REFUTED in model and code
+   (a candidate widget completely above the top of the new page made change_focus raise
+   ListBoxError: heights 1,1,2 / selectable 0,1,0 / box of 2 rows / 'home', 'page down');
+   corpus/C07/corners.json and corpus/C07/repro_page_down_raises.py keep that history as a
+   regression case, [page_down_formerly_failing_case] computes it in the model. --- *)
+Theorem page_down_never_raises :
+  (forall s m, ViewOK s -> WidgetsOK (items s) -> 1 <= m ->
+     exists s' b, keypress_page_down s m = Ok (s', b) /\ ViewOK s' /\ items s' = items s) /\
+  (forall s m, ViewOK s -> WidgetsOK (items s) -> 1 <= m ->
+     exists s' b, keypress s m KPageDown = Ok (s', b) /\ ViewOK s' /\ items s' = items s).
+Proof. split; [exact page_down_never_raises_lemma | exact keypress_page_down_never_raises_lemma]. Qed.
+Print Assumptions page_down_never_raises.
 
-Theorem page_down_handled_without_such_a_candidate :
-  forall s m v,
-    ViewOK s -> WidgetsOK (items s) -> 1 <= m ->
-    visible (items s) (focus s) (off s) (inum s) (iden s) m true = Ok (Some v) ->
-    (forall x, In x (pd_candidates s m v) -> t_rows x = 0 \/ 0 < t_ro x + t_rows x) ->
-    exists s' b, keypress_page_down s m = Ok (s', b) /\ ViewOK s' /\ items s' = items s.
-Proof. exact page_down_ok. Qed.
-Print Assumptions page_down_handled_without_such_a_candidate.
-
-(* ... and the situation is reachable with ordinary widgets (no zero-height ones): a one-row text, a
-   one-row selectable widget and a two-row text in a box of two rows, focus on the first widget
-   aligned to the top, 'page down' (replayed on the implementation by corpus/C07/corners.json and
-   corpus/C07/repro_page_down_raises.py).  So "page down never raises" is REFUTED. *)
-Definition page_down_never_raises_full : Prop :=
-  forall s m, ViewOK s -> WidgetsOK (items s) -> 1 <= m -> exists s' b, keypress_page_down s m = Ok (s', b).
-Theorem page_down_never_raises_refuted : ~ page_down_never_raises_full.
-Proof. exact page_down_never_raises_refutation. Qed.
-Print Assumptions page_down_never_raises_refuted.
+Example page_down_formerly_failing_case :
+  match keypress_page_down pd_witness 2 with
+  | Ok (s, b) => (focus s, off s, b)
+  | Err _ => (-9, -9, true)
+  end = (2, 0, false).
+Proof. vm_compute. reflexivity. Qed.
 
 (* NOT proved (stated): 'page up' never raises.  No counterexample in the exhaustive small scopes
    or in any run (correspondence + regression oracle); 'up', 'down', 'home', 'end' likewise. *)
